@@ -50,15 +50,20 @@ type Zone struct {
 
 // HostSpec is one element of the caller's comma-separated address.
 type HostSpec struct {
-	Host string `json:"host"`
-	Port int    `json:"port,omitempty"` // 0: no port written
+	Host  string `json:"host"`
+	Port  int    `json:"port,omitempty"`  // 0: no port written
+	Space bool   `json:"space,omitempty"` // blanks around the element ("a:443 , b:443")
 }
 
 func (h HostSpec) String() string {
-	if h.Port == 0 {
-		return h.Host
+	s := h.Host
+	if h.Port != 0 {
+		s = net.JoinHostPort(h.Host, strconv.Itoa(h.Port))
 	}
-	return net.JoinHostPort(h.Host, strconv.Itoa(h.Port))
+	if h.Space {
+		s = " " + s + " "
+	}
+	return s
 }
 
 // DialOutcome scripts the DialFunc calls for one IP address.
@@ -708,7 +713,13 @@ func judgeEch(res *core.Result, prop string, p *EchPlan, es *echState, caller, b
 			ownKind = "rec"
 		}
 		sigParts = append(sigParts, fmt.Sprintf("%d/%s/%s/%s", c.n, ownKind, src, c.outcome))
-		canon = append(canon, fmt.Sprintf("%d call %s #%d list=%s sn=%s -> %d %s", c.t, c.addr, c.n, listTag(c.list, c.listNil), c.sn, c.endT, c.outcome))
+		// Calls that begin in or after the instant of Dial's return are not part of
+		// the canonical log: in that instant the feeder's resolution of the next
+		// host races with the deferred cancel, so whether those hosts still get
+		// (cancelled) attempts is the runtime's choice. They are judged all the same.
+		if c.t < retT {
+			canon = append(canon, fmt.Sprintf("%d call %s #%d list=%s sn=%s -> %d %s", c.t, c.addr, c.n, listTag(c.list, c.listNil), c.sn, c.endT, c.outcome))
+		}
 	}
 
 	// --- retry discipline, per address
@@ -782,7 +793,7 @@ func judgeEch(res *core.Result, prop string, p *EchPlan, es *echState, caller, b
 	// coinciding completions make the order of the joined errors runtime-owned
 	seen := map[int64]bool{}
 	for _, c := range calls {
-		if c.endT <= retT {
+		if c.endT <= retT && c.outcome != "cancelled" && !(c.outcome == "hang" && c.endT == retT) {
 			if seen[c.endT] {
 				res.Arbitrated = true
 			}
@@ -797,7 +808,7 @@ func judgeEch(res *core.Result, prop string, p *EchPlan, es *echState, caller, b
 		res.Arbitrated = true
 	}
 	sort.Strings(canon)
-	canon = append(canon, fmt.Sprintf("%d return conn=%v err=%s queries=%d", retT, retConn != nil, errText(retErr), nq))
+	canon = append(canon, fmt.Sprintf("%d return conn=%v err=%s", retT, retConn != nil, errText(retErr)))
 	if debugCanon != nil {
 		debugCanon(canon)
 	}
